@@ -117,6 +117,8 @@ def tlc(spec_dir, module, cfg, workers=None, timeout=900, simulate=None, depth=N
         r.violated = "temporal"
     elif "Error: Deadlock reached" in out:
         r.violated = "deadlock"
+    elif re.search(r"Error: Postcondition (\S+)", out):
+        r.violated = "postcondition"
     elif "Error: The first argument of Assert evaluated to FALSE" in out or \
             "Assumption" in out and "is false" in out:
         r.violated = "assert"
